@@ -141,6 +141,22 @@ def check_conformation(name, conf, viol, counts, classes):
             if sign(d[3]) not in (0, want):
                 viol.append({"cls": "coulomb-wrong-sign", "msg": "%s: %s (charge %+g) has Coulomb determinant %+.4f from %s (charge %+g%s)" % (
                     name, g["label"], q, d[3], d[2], pq, ", ion" if ion else "")})
+    # every ion is a partner of its own: two ions must not be folded into one determinant
+    ions = [g for g in conf["groups"] if g["type"] == "ION"]
+    if len(ions) >= 2:
+        for g in conf["groups"]:
+            if not g["titratable"]:
+                continue
+            keys = [tuple(d[0]) for d in g["det"]["coulomb"] if any(tuple(i["akey"]) == tuple(d[0]) for i in ions)]
+            counts["ion_rows_checked"] = counts.get("ion_rows_checked", 0) + len(keys)
+            near = 0
+            for i in ions:
+                d2 = sum((g["center"][k] - i["center"][k]) ** 2 for k in range(3))
+                if d2 < 9.999 ** 2:
+                    near += 1
+            if len(keys) < near and near - len(keys) >= 1 and len(set(keys)) == len(keys):
+                viol.append({"cls": "ion-determinants-folded", "msg": "%s: %s has %d ions within the Coulomb range but %d ion determinant(s)" % (
+                    name, g["label"], near, len(keys))})
     # acid-base pairs of reported protein side chains: equal and opposite
     rep = [g for g in conf["groups"] if g["titratable"] and g["use"] and g["ctg"] is None and g["aid"][0] == "atom"]
     repidx = {tuple(g["akey"]): g for g in rep}
